@@ -677,3 +677,245 @@ def len_outcomes(ex, outs):
 FUNCS['_lin.__len__'] = {'setup': len_setup, 'scenarios': {'any': {}},
                          'on_outcomes': len_outcomes,
                          'config': {'unroll': 8}}
+
+
+# ---------------------------------------------------- _lin.__getitem__
+# f[key] for a linear function: every coefficient is replaced by the rows
+# l(0), l(1), ... of its *effective* coefficient (l = _keytolist(key, len(f)),
+# by its own contract a list of len(l) >= 0 indices in [0, len(f))).
+# The loop over self._coeff.items() is executed for an arbitrary entry
+# (variable of length n, stored coefficient of a legal shape with entry
+# function EK(k, ., .)); the body must store exactly one new coefficient c'
+# under the same variable in the new function, and for every i < len(l) and
+# column j < n
+#       eff(c')(i, j)  =  eff(c)(l(i), j)
+# with c' of a shape that is legal for a function of length len(l), and c' a
+# new object.  Operations added to the matrix model for this: x[l, :] (gather
+# rows by an index list), spmatrix(a, range(m), l, (m, n)) (entry a at (i,
+# l(i))), matrix(x, tc='d') (dense copy).
+EK = z3.Function('entry_of_coefficient', z3.IntSort(), z3.IntSort(),
+                 z3.IntSort(), z3.RealSort())
+LIDX = z3.Function('l', z3.IntSort(), z3.IntSort())
+
+
+class IdxL:
+    """l = _keytolist(key, len(self))"""
+    abs_object = True
+
+    def __init__(self, n):
+        self.n = n
+
+    def abs_truth(self, ex, st):
+        return self.n > 0
+
+
+class NewCoeffs:
+    abs_object = True
+
+    def abs_setitem(self, ex, st, idx, val, s):
+        st.ghost['stores'] = st.ghost.get('stores', ()) + ((idx, val),)
+
+
+class NewLin:
+    abs_object = True
+
+    def __init__(self):
+        self.coeffs = NewCoeffs()
+
+    def abs_getattr(self, ex, st, attr, n):
+        if attr == '_coeff':
+            return self.coeffs
+        return core.NOTFOUND
+
+
+class GetSeq(EntrySeq):
+    def abs_loop(self, ex, st, s, fid):
+        k = z3.Int(ex.fresh('k'))
+        b = st.copy()
+        b.pc += [k >= 0, k < self.N, legal_entry(k, self.Lg)]
+        v = VarObj(NK(k))
+        c = new_symmat(ex, b, RK(k), CK(k), lambda R_, j_: EK(k, R_, j_),
+                       DK(k), 'entry k')
+        ex.assign(b, fid, s.target, (v, c), s)
+        base = len(b.ghost.get('stores', ()))
+        l = st.ghost['l']
+        i, j = z3.Int('i'), z3.Int('j')
+        P = {'prop': 'C11'}
+        for o in ex.exec_block(s.body, b, fid):
+            if o.kind not in ('fall', 'continue'):
+                raise Unsupported('early exit from the loop over the '
+                                  'coefficients')
+            new = o.st.ghost.get('stores', ())[base:]
+            ok = len(new) == 1 and new[0][0] is v and sm(o.st, new[0][1]) \
+                is not None
+            ex.oblige(o.st, 'lin-index-terms', z3.BoolVal(ok), s,
+                      'f[key] of a linear function stores exactly one '
+                      'coefficient per variable of f, under that variable '
+                      '(%d stores)' % len(new), extra=P)
+            if ok:
+                c2 = sm(o.st, new[0][1])
+                r2, cc2, E2, n = c2.f['r'], c2.f['c'], c2.f['E'], NK(k)
+                m = l.n
+                n0 = len(o.st.pc)
+                o.st.pc += [i >= 0, i < m, j >= 0, j < n, m >= 1]
+                ex.oblige(o.st, 'lin-index-value', eff(
+                    r2, cc2, E2, i, j, n) == eff(RK(k), CK(k), lambda R_, j_:
+                                                 EK(k, R_, j_), LIDX(i), j,
+                                                 n), s,
+                    'f[key]: row i of the effective coefficient of every '
+                    'variable is row l(i) of the old effective coefficient',
+                    extra=P)
+                ex.oblige(o.st, 'lin-index-shape', z3.Or(
+                    z3.And(r2 == m, cc2 == n), z3.And(r2 == 1, cc2 == n),
+                    z3.And(r2 == 1, cc2 == 1, c2.f['dense'], n == 1)), s,
+                    'f[key]: the new coefficient has a shape that is legal '
+                    'for a function of length len(l): len(l) x n, 1 x n, or '
+                    'a dense scalar for a variable of length 1', extra=P)
+                del o.st.pc[n0:]
+                ex.oblige(o.st, 'lin-index-fresh', z3.BoolVal(
+                    new[0][1].oid != c.oid), s,
+                    'f[key]: the new coefficient is a new matrix, not the '
+                    'one stored in f', extra=P)
+            ex.orphans = getattr(ex, 'orphans', [])
+            ex.orphans.extend(o.st.obligs)
+        e = st.copy()
+        e.ghost['passes'] = e.ghost.get('passes', 0) + 1
+        return [core.Outcome('fall', e)]
+
+
+def gi_getitem(ex, st, ref, idx, n):
+    """x[l, :] with the abstract index list"""
+    o = sm(st, ref)
+    if o is not None and isinstance(idx, tuple) and len(idx) == 2 and \
+            isinstance(idx[0], IdxL) and idx[1] == FULL:
+        E = o.f['E']
+        q = z3.Int('q_b')
+        ex.oblige(st, 'lin-index-bounds', z3.ForAll([q], z3.Implies(z3.And(
+            q >= 0, q < idx[0].n), LIDX(q) < o.f['r'])), n,
+            'x[l, :]: every index of l is a row of x', extra={'prop': 'C11'})
+        return new_symmat(ex, st, idx[0].n, o.f['c'],
+                          lambda R_, j_: E(LIDX(R_), j_), o.f['dense'],
+                          'rows l')
+    return getitem(ex, st, ref, idx, n)
+
+
+def m_spmatrix(ex, st, args, kwargs, n):
+    # spmatrix(a, range(m), l, (m, n), 'd'): entry a at (i, l(i)), i < m
+    a = scalar_term(ex, st, args[0]) if args else None
+    if a is None or len(args) < 4 or not isinstance(args[2], IdxL):
+        raise Unsupported('spmatrix(%r)' % (args,))
+    rg = args[1]
+    if not (isinstance(rg, Ref) and st.heap[rg.oid].kind == 'range' and
+            const_of(st.heap[rg.oid].f['lo']) == (True, 0)):
+        raise Unsupported('row indices of spmatrix')
+    hi = st.heap[rg.oid].f['hi']
+    m = args[2].n
+    if not (isinstance(hi, I) and ex.decide(st, hi.t == m) is True):
+        raise Unsupported('row indices of spmatrix are not range(len(l))')
+    sz = args[3]
+    if not (isinstance(sz, tuple) and len(sz) == 2 and all(isinstance(
+            t_, I) for t_ in sz)):
+        raise Unsupported('size of spmatrix')
+    if ex.decide(st, sz[0].t == m) is not True:
+        raise Unsupported('spmatrix with fewer rows than entries')
+    return new_symmat(ex, st, sz[0].t, sz[1].t,
+                      lambda R_, j_: z3.If(j_ == LIDX(R_), a, z3.RealVal(0)),
+                      z3.BoolVal(False), 'spmatrix(a, range(m), l)')
+
+
+def gi_len(ex, st, args, kwargs, n):
+    v = args[0]
+    if isinstance(v, IdxL):
+        return I(v.n)
+    if isinstance(v, GiSelf):
+        return I(v.lg)
+    return b_len(ex, st, args, kwargs, n)
+
+
+class GiSelf:
+    abs_object = True
+
+    def __init__(self, lg, seq):
+        self.lg, self.seq = lg, seq
+
+    def abs_getattr(self, ex, st, attr, n):
+        if attr == '_coeff':
+            return self.seq
+        return core.NOTFOUND
+
+
+def gi_keytolist(ex, st, args, kwargs, n):
+    Lg = st.ghost['L']
+    m = z3.Int('len(l)')
+    q = z3.Int('q_l')
+    st.pc += [m >= 0, z3.ForAll([q], z3.And(LIDX(q) >= 0, LIDX(q) < Lg))]
+    st.ghost['l'] = IdxL(m)
+    return st.ghost['l']
+
+
+def gi_newlin(ex, st, args, kwargs, n):
+    st.ghost['news'] = st.ghost.get('news', 0) + 1
+    st.ghost['new'] = NewLin()
+    return st.ghost['new']
+
+
+def gi_setup(sc):
+    def setup(ex, st, fid, fn):
+        install()
+        L.ext['builtins.len'] = gi_len
+        L.ext['cvxopt.modeling._keytolist'] = gi_keytolist
+        L.ext['cvxopt.modeling._lin'] = gi_newlin
+        L.ext['cvxopt.modeling.spmatrix'] = m_spmatrix
+        L.pure.update(['cvxopt.modeling._keytolist', 'cvxopt.modeling._lin',
+                       'cvxopt.modeling.spmatrix'])
+        L.hooks['instance_getitem'] = gi_getitem
+        fr = st.frames[fid]
+        Lg, N = z3.Int('L'), z3.Int('number of terms')
+        st.pc += [Lg >= 1, N >= 0]
+        seq = GetSeq(Lg, N, None)
+        fr['self'] = GiSelf(Lg, seq)
+        fr['key'] = Unknown('key')
+        fr['matrix'] = Ext('cvxopt.modeling.matrix')
+        fr['spmatrix'] = Ext('cvxopt.modeling.spmatrix')
+        st.ghost['L'] = Lg
+        st.ghost['frame_check'] = False
+    return setup
+
+
+def gi_outcomes(ex, outs):
+    class N:
+        lineno = 0
+        col_offset = 0
+    P = {'prop': 'C11'}
+    nret = nref = 0
+    for o in outs:
+        st = o.st
+        l = st.ghost.get('l')
+        node = N()
+        if o.kind == 'raise':
+            node.lineno = o.val[2] if len(o.val) > 2 else 0
+            ok = o.val[0] == 'ValueError' and l is not None
+            ex.oblige(st, 'lin-index-refuses', z3.And(
+                z3.BoolVal(ok), l.n == 0) if ok else z3.BoolVal(False), node,
+                'f[key] of a linear function raises only ValueError, for an '
+                'empty index list (%s)' % (o.val[0],), extra=P)
+            nref += 1
+            continue
+        nret += 1
+        ex.oblige(st, 'lin-index-refuses', l.n > 0, node,
+                  'f[key] with an empty index list is refused', extra=P)
+        ex.oblige(st, 'lin-index-terms', z3.BoolVal(
+            o.val is st.ghost.get('new') and st.ghost.get('news') == 1 and
+            st.ghost.get('passes') == 1), node,
+            'f[key] returns the new linear function, built by one pass over '
+            'the coefficients of f', extra=P)
+    if outs:
+        ex.oblige(outs[0].st, 'covered', z3.BoolVal(nret >= 1 and nref >= 1),
+                  N(), 'f[key] of a linear function returns and refuses '
+                  '(%d, %d paths)' % (nret, nref), extra=P)
+    return {'paths': len(outs), 'returns': nret}
+
+
+FUNCS['_lin.__getitem__'] = {'setup': gi_setup, 'scenarios': {'any': {}},
+                             'on_outcomes': gi_outcomes,
+                             'config': {'unroll': 8}}
